@@ -12,7 +12,7 @@
  *              (mut = write,fsync,trunc,alloc,rename,unlink,mkdir,link,utime and creating/truncating opens)
  *     when   = n=<k> (k-th call matching sel+op, 1-based, process wide) | off=<lo>-<hi> | all
  *     action = err=<EIO|ENOSPC|EACCES|ENOENT|n> | short=<bytes> | delay=<ms> | sigint | sigterm |
- *              kill-before | kill-after | kill-mid
+ *              kill-before | kill-after | kill-mid | corrupt (write the data with one byte flipped, report success)
  * Event line: "E <seq> <tid> <op> <class> <ret> <errno> <off> <len> <flags> <path> [<path2>]"
  * Injection : "I <seq> <rule#> <action> <op> <class> <path>"
  */
@@ -41,8 +41,8 @@
 enum { OP_OPEN, OP_READ, OP_WRITE, OP_FSYNC, OP_TRUNC, OP_ALLOC, OP_RENAME, OP_UNLINK, OP_MKDIR, OP_LINK, OP_UTIME, OP_CLOSE, OP_MUT, OP_N };
 static const char *opname[] = { "open", "read", "write", "fsync", "trunc", "alloc", "rename", "unlink", "mkdir", "link", "utime", "close", "mut" };
 
-enum { A_ERR, A_SHORT, A_DELAY, A_SIGINT, A_SIGTERM, A_KILL_BEFORE, A_KILL_AFTER, A_KILL_MID };
-static const char *actname[] = { "err", "short", "delay", "sigint", "sigterm", "kill-before", "kill-after", "kill-mid" };
+enum { A_ERR, A_SHORT, A_DELAY, A_SIGINT, A_SIGTERM, A_KILL_BEFORE, A_KILL_AFTER, A_KILL_MID, A_CORRUPT };
+static const char *actname[] = { "err", "short", "delay", "sigint", "sigterm", "kill-before", "kill-after", "kill-mid", "corrupt" };
 
 struct rule {
 	char sel[600];
@@ -174,6 +174,8 @@ static void parse_plan(const char *plan)
 			r->action = A_KILL_AFTER;
 		} else if (!strcmp(f[3], "kill-mid")) {
 			r->action = A_KILL_MID;
+		} else if (!strcmp(f[3], "corrupt")) {
+			r->action = A_CORRUPT;
 		} else {
 			continue;
 		}
@@ -541,6 +543,21 @@ static ssize_t do_rw(int isw, int positional, int fd, void *buf, size_t len, off
 		if (rules[ri].action == A_SHORT)
 			log_inj(ri, op, cls, path);
 		len = part;
+	}
+	if (isw && ri >= 0 && rules[ri].action == A_CORRUPT && len > 0) {
+		/* silent corruption: the data reaches the file with one byte changed, the call reports success */
+		unsigned char *tmp = malloc(len);
+		if (tmp) {
+			memcpy(tmp, buf, len);
+			tmp[len / 2] ^= 0x5a;
+			log_inj(ri, op, cls, path);
+			ret = positional ? r_pwrite(fd, tmp, len, off) : r_write(fd, tmp, len);
+			e = errno;
+			free(tmp);
+			log_event(op, cls, ret, ret < 0 ? e : 0, off, len, positional, path, 0);
+			errno = e;
+			return ret;
+		}
 	}
 	if (isw)
 		ret = positional ? r_pwrite(fd, buf, len, off) : r_write(fd, buf, len);
